@@ -5,9 +5,8 @@ use educe::Educe;
 use core::cmp::Ordering;
 #[derive(Educe)]
 #[educe(PartialEq)]
-#[educe(Eq)]
-pub struct T { #[educe(Eq(method = m_eq))] other: A<0> }
-pub fn values() -> Vec<T> { vec![T { other: A(0) }, T { other: A(1) }, T { other: A(7) }] }
-pub fn show(x: &T) -> String { #[allow(unused_variables)] match x { T { other: p0 } => format!("T({})", sv(p0)) } }
-pub fn o_eq(a: &T, b: &T) -> bool { match (a, b) { (T { other: a0 }, T { other: b0 }) => m_eq(a0, b0) } }
+pub struct T { #[educe(PartialEq(method = m_eq))] y: A<0> }
+pub fn values() -> Vec<T> { vec![T { y: A(0) }, T { y: A(1) }, T { y: A(7) }] }
+pub fn show(x: &T) -> String { #[allow(unused_variables)] match x { T { y: p0 } => format!("T({})", sv(p0)) } }
+pub fn o_eq(a: &T, b: &T) -> bool { match (a, b) { (T { y: a0 }, T { y: b0 }) => m_eq(a0, b0) } }
 pub fn run(out: &mut Out) { let vs = values(); for a in &vs { for b in &vs { let e = o_eq(a, b); out.check((a == b) == e, "eq_4", "eq", || format!("{} == {} expected {}", show(a), show(b), e)); out.check((a != b) == !e, "eq_4", "ne", || format!("{} != {} expected {}", show(a), show(b), !e)); } } }
